@@ -106,8 +106,16 @@ pub(crate) fn assert_farm_asset(
             ContractError::AssetMismatch
         );
         // if the farm creation denom and the farm asset denom are different,
-        // ensure only those two assets were sent
-        ensure!(info.funds.len() == 2usize, ContractError::AssetMismatch);
+        // ensure only those two assets were sent (only the farm asset if there is no fee to pay)
+        let expected_funds = if farm_creation_fee.amount.is_zero() {
+            1usize
+        } else {
+            2usize
+        };
+        ensure!(
+            info.funds.len() == expected_funds,
+            ContractError::AssetMismatch
+        );
     } else {
         ensure!(
             params
